@@ -54,4 +54,11 @@ META = {
         'note': PROOF_NOTE + 'Go regexp semantics and the rest of the token table are not modelled.',
         'technique': 'Lean 4 proof (suffix-returning matchers, induction over runs/lengths/chunkings) + regenerated regex facts + size/chunk sweeps on the real parser',
     },
+    'C17': {
+        'text': 'Theorems: an accepted integer literal has exactly the positional value of its digits (separators ignored) and fits 64 bits, an overflowing one is rejected; exponent-form integers are mantissa*10^exp exactly or rejected; '
+                'unquote(quote s) = s for every string and every undefined escape is rejected; a word of the identifier pattern is one IDENT token of any length and only the six exact keywords are reserved; generated obligation: '
+                'no keyword/letter pattern precedes IDENT in the regenerated token table. Tied to the parser by literal/name sweeps; floats against the correctly rounded conversion.',
+        'note': PROOF_NOTE + 'strconv and math/big are modelled by their documented behaviour; float rounding and numeric escapes are outside the model. Known finding: underscore+digit names.',
+        'technique': 'Lean 4 proof (positional value, quote/unquote round trip, identifier matcher) + regenerated token-table facts + literal/name correspondence sweeps',
+    },
 }
